@@ -16,6 +16,19 @@
 (*            model.py:237 / writer.py:105) - decided by PYTHONHASHSEED    *)
 (*   outdir   the output directory is empty, or already holds the result   *)
 (*            of a previous run over the same input                        *)
+(*   earlier  what the PROCESS did before this run: nothing (a fresh        *)
+(*            `python -m pydoctor`), or another pydoctor run (sphinx        *)
+(*            extension, API use: pydoctor.sphinx_ext.build_apidocs calls   *)
+(*            driver.main once per configured project).  ChildTable.last_id *)
+(*            (templatewriter/pages/table.py:62) is a class attribute that  *)
+(*            numbers the member tables of every page: id="idN"             *)
+(*   clock    the wall clock, read by System.__init__ (model.py:976,       *)
+(*            buildtime = now()); it only reaches the pages when the       *)
+(*            input does not fix the build time                            *)
+(*                                                                         *)
+(* The INPUT also holds the option variant: --cls/--mod-member-order       *)
+(* (alphabetical | source) and the value of SOURCE_DATE_EPOCH (set, to any *)
+(* number including 0, or unset).                                          *)
 (*                                                                         *)
 (* The model says what the code DOES (Listing = "sorted": the listing is   *)
 (* passed through sorted(); Guess = "set": the guessed project name joins  *)
@@ -38,7 +51,14 @@ CONSTANTS MaxRoots,   \* enumeration bound on the number of roots on the command
           Source,     \* "enum" | "file"
           Guess,      \* "set"    : name = '/'.join(system.root_names)              (driver.py:75)
                       \* "rootobjects" : name joined in command line order (the proposed fix)
+          PermuteUpTo,\* listing orders other than the sorted one are explored for inputs with at most this many roots
           ReuseUpTo,  \* the reused output directory is explored for inputs with at most this many roots
+          TableIds,   \* "process_counter" : the ids of the member tables continue where the previous run of the
+                      \*            process stopped (table.py:62,74)  |  "per_run" : they start again in every run
+          SameProcUpTo,\* a run after another run in the same process is explored for inputs with at most this many roots
+          EpochRule,  \* "is_set" : SOURCE_DATE_EPOCH fixes the build time whenever the variable exists,
+                      \*            whatever its number (driver.py:39-45: int(os.environ[...]), except KeyError)
+                      \* "truthy" : a value of 0 counts as not set (model-level negative control only)
           Listing     \* "sorted" : for path in sorted(package_path.iterdir())       (model.py:1355)
                       \* "raw"    : the listing is used as the file system gives it (model-level
                       \*            negative control only: TLC must then report dependence)
@@ -55,9 +75,14 @@ CONSTANTS MaxRoots,   \* enumeration bound on the number of roots on the command
 (*           allImplementedInterfaces, zopeinterface.py:42-57) | "sorted"  *)
 (*           (sorted before use: Class.subclasses, pages/__init__.py:465)  *)
 (*           | "set" (iterated as a set: a choice point - none in the code *)
-(*           as it is; used by the model-level negative control)           *)
+(*           as it is; used by the model-level negative control).          *)
+(*           `how` is given per member order option: [alphabetical, source]*)
+(*           (members inherited from a base: sorted by name, or by line    *)
+(*           number and then "the order of insertion", util.py:114-124)    *)
+(*   variants : <<[order, epochset, epoch, upto]>>  option variants of an  *)
+(*           input; enumerated for inputs with at most `upto` roots        *)
 Universe == IF Source = "enum" THEN JsonDeserialize(IOEnv.C18_UNIVERSE)
-            ELSE [roots |-> <<>>, dirs |-> <<>>, sites |-> <<>>]
+            ELSE [roots |-> <<>>, dirs |-> <<>>, sites |-> <<>>, variants |-> <<>>]
 \* observed runs: <<[reg, u, roots, named, setOrder, listing (seq aligned with u.dirs), outdir]>>
 FileRuns == IF Source = "file" THEN JsonDeserialize(IOEnv.C18_RUNS) ELSE <<>>
 
@@ -67,7 +92,8 @@ InjSeqs(S, n) == UNION {{s \in [1..k -> S] : \A i, j \in 1..k : i # j => s[i] # 
 \* ---------------------------------------------------------------- projects (the inputs)
 EnumProjects ==
   LET ids == {Universe.roots[i].id : i \in DOMAIN Universe.roots}
-  IN  SetToSeq({[roots |-> rs, named |-> nm] : rs \in InjSeqs(ids, MaxRoots), nm \in BOOLEAN})
+  IN  SetToSeq({x \in [roots : InjSeqs(ids, MaxRoots), named : BOOLEAN, var : Rng(Universe.variants)] :
+                  Len(x.roots) <= x.var.upto})
 NProjects == IF Source = "enum" THEN Len(EnumProjects) ELSE Len(FileRuns)
 \* one register per INPUT; observed runs carry the number of their input in `reg`
 NRegs == IF Source = "enum" THEN NProjects ELSE NProjects + 1
@@ -77,6 +103,8 @@ VARIABLES pid,        \* index of the input (register number)
           u,          \* the universe this input lives in
           roots,      \* command line order of the roots
           named,      \* --project-name given
+          var,        \* option variant: [order, epochset, epoch]
+          clock,      \* environment: what the wall clock shows when the System is created
           phase,      \* "prev" (the run that filled the reused directory) | "cur"
           pc,         \* "add" | "guess" | "write" | "done"
           nroot,      \* number of roots handed to addModule so far
@@ -85,17 +113,25 @@ VARIABLES pid,        \* index of the input (register number)
           setOrder,   \* environment: iteration order of root_names in this process
           siteOrder,  \* environment: iteration order of every other set of names (aligned with u.sites)
           listing,    \* environment: dir path -> order the file system gave (as taken so far)
-          outdir,     \* environment: "fresh" | "reused"
+          outdir,     \* environment: "fresh" | "reused" | "sameproc" (fresh directory, second run of its process)
           projname,   \* System.projectname as a sequence of root ids (<<0>> = the given name)
           out         \* the output directory: file id -> content
-vars == <<pid, u, roots, named, phase, pc, nroot, stack, mods, setOrder, siteOrder, listing, outdir, projname, out>>
+vars == <<pid, u, roots, named, var, clock, phase, pc, nroot, stack, mods, setOrder, siteOrder, listing, outdir, projname, out>>
+
+\* driver.get_system (driver.py:36-45)
+EpochFixes(v) == v.epochset /\ (EpochRule = "is_set" \/ v.epoch # 0)
+\* number of the first member table of this run (0 = they start at id1)
+IdBase == IF TableIds = "process_counter" /\ outdir = "sameproc" THEN 1 ELSE 0
+BuildTime == IF EpochFixes(var) THEN <<0, var.epoch>> ELSE <<1, clock>>     \* <<1, c>>: now()
 
 RootRec(r) == CHOOSE x \in Rng(u.roots) : x.id = r
 DirRec(path) == CHOOSE d \in Rng(u.dirs) : d.path = path
 ById(a, b) == a.id < b.id
 Identity(ents) == SortSeq(ents, ById)
 \* in the "prev" phase the environment is the reference one (bound: see notes/C18.md)
-ListChoices(path) == IF phase = "prev" \/ Source = "file" THEN {} ELSE SetToSeqs(Rng(DirRec(path).ents))
+ListChoices(path) == IF phase = "prev" \/ Source = "file" THEN {}
+                     ELSE IF Len(roots) <= PermuteUpTo /\ outdir # "sameproc" THEN SetToSeqs(Rng(DirRec(path).ents))
+                     ELSE {Identity(DirRec(path).ents)}
 FileListing(path) ==
   LET k == CHOOSE i \in DOMAIN u.dirs : u.dirs[i].path = path IN FileRuns[pid].listing[k]
 Given(path) == IF phase = "prev" THEN Identity(DirRec(path).ents) ELSE FileListing(path)
@@ -108,12 +144,14 @@ Init ==
   /\ IF Source = "enum"
      THEN /\ pid \in 1..NProjects
           /\ u = Universe
-          /\ roots = EnumProjects[pid].roots /\ named = EnumProjects[pid].named
-          /\ outdir \in (IF Len(EnumProjects[pid].roots) <= ReuseUpTo THEN {"fresh", "reused"} ELSE {"fresh"})
+          /\ roots = EnumProjects[pid].roots /\ named = EnumProjects[pid].named /\ var = EnumProjects[pid].var
+          /\ outdir \in {"fresh"} \cup (IF Len(EnumProjects[pid].roots) <= ReuseUpTo THEN {"reused"} ELSE {})
+                                   \cup (IF Len(EnumProjects[pid].roots) <= SameProcUpTo THEN {"sameproc"} ELSE {})
      ELSE /\ pid \in 1..NProjects
           /\ u = FileRuns[pid].u
-          /\ roots = FileRuns[pid].roots /\ named = FileRuns[pid].named
+          /\ roots = FileRuns[pid].roots /\ named = FileRuns[pid].named /\ var = FileRuns[pid].var
           /\ outdir = FileRuns[pid].outdir
+  /\ clock \in (IF EpochFixes(var) THEN {1} ELSE {1, 2})     \* two runs never start in the same second
   /\ phase = IF outdir = "reused" THEN "prev" ELSE "cur"
   /\ pc = "add" /\ nroot = 0 /\ stack = <<>> /\ mods = <<>>
   /\ setOrder = <<>> /\ siteOrder = <<>> /\ listing = <<>> /\ projname = <<>>
@@ -133,7 +171,7 @@ AddRoot ==
                   /\ stack' = <<OpenDir(<<r>>, Given(<<r>>))>>
                   /\ listing' = Append(listing, [dir |-> <<r>>, order |-> Given(<<r>>)])
           ELSE UNCHANGED <<stack, listing>>
-  /\ UNCHANGED <<pid, u, roots, named, phase, pc, setOrder, siteOrder, outdir, projname, out>>
+  /\ UNCHANGED <<pid, u, roots, named, var, clock, phase, pc, setOrder, siteOrder, outdir, projname, out>>
 
 \* one iteration of the for loop in addPackage (model.py:1355-1360)
 StepEntry ==
@@ -156,17 +194,17 @@ StepEntry ==
                   /\ mods' = Append(mods, sub) /\ stack' = here /\ UNCHANGED listing
              [] OTHER ->                   \* __init__.py, dot file, non-python file, plain directory
                   /\ stack' = here /\ UNCHANGED <<mods, listing>>
-  /\ UNCHANGED <<pid, u, roots, named, phase, pc, nroot, setOrder, siteOrder, outdir, projname, out>>
+  /\ UNCHANGED <<pid, u, roots, named, var, clock, phase, pc, nroot, setOrder, siteOrder, outdir, projname, out>>
 
 PopFrame ==
   /\ pc = "add" /\ stack # <<>> /\ stack[Len(stack)].rest = <<>>
   /\ stack' = SubSeq(stack, 1, Len(stack) - 1)
-  /\ UNCHANGED <<pid, u, roots, named, phase, pc, nroot, mods, setOrder, siteOrder, listing, outdir, projname, out>>
+  /\ UNCHANGED <<pid, u, roots, named, var, clock, phase, pc, nroot, mods, setOrder, siteOrder, listing, outdir, projname, out>>
 
 AllAdded ==
   /\ pc = "add" /\ stack = <<>> /\ nroot = Len(roots)
   /\ pc' = "guess"
-  /\ UNCHANGED <<pid, u, roots, named, phase, nroot, stack, mods, setOrder, siteOrder, listing, outdir, projname, out>>
+  /\ UNCHANGED <<pid, u, roots, named, var, clock, phase, nroot, stack, mods, setOrder, siteOrder, listing, outdir, projname, out>>
 
 \* driver.get_system step 3 (driver.py:74-79); root_names is a set (model.py:1020-1022)
 SetChoices == IF phase = "prev" THEN {SortSeq(roots, LAMBDA a, b : a < b)}
@@ -176,13 +214,14 @@ SetChoices == IF phase = "prev" THEN {SortSeq(roots, LAMBDA a, b : a < b)}
 Lt(a, b) == a < b
 SiteRanks(i) == LET el == SelectSeq(u.sites[i].elems, LAMBDA e : e.m \in Rng(mods))
                 IN [k \in DOMAIN el |-> el[k].r]
-SiteChoice(i) == IF u.sites[i].how = "set" /\ phase = "cur" /\ Source = "enum"
+How(i) == u.sites[i].how[var.order]
+SiteChoice(i) == IF How(i) = "set" /\ phase = "cur" /\ Source = "enum"
                  THEN SetToSeqs(Rng(SiteRanks(i))) ELSE {SortSeq(SiteRanks(i), Lt)}
 RECURSIVE SiteChoices(_)
 SiteChoices(i) == IF i > Len(u.sites) THEN {<<>>}
                   ELSE {<<p>> \o rest : p \in SiteChoice(i), rest \in SiteChoices(i + 1)}
-SiteOut(i) == CASE u.sites[i].how = "list"   -> SiteRanks(i)
-                [] u.sites[i].how = "sorted" -> SortSeq(SiteRanks(i), Lt)
+SiteOut(i) == CASE How(i) = "list"   -> SiteRanks(i)
+                [] How(i) = "sorted" -> SortSeq(SiteRanks(i), Lt)
                 [] OTHER                     -> siteOrder[i]
 GuessName ==
   /\ pc = "guess"
@@ -191,7 +230,7 @@ GuessName ==
        /\ siteOrder' = sp
        /\ projname' = IF named THEN <<0>> ELSE IF Guess = "set" THEN so ELSE roots
   /\ pc' = "write"
-  /\ UNCHANGED <<pid, u, roots, named, phase, nroot, stack, mods, listing, outdir, out>>
+  /\ UNCHANGED <<pid, u, roots, named, var, clock, phase, nroot, stack, mods, listing, outdir, out>>
 
 \* IndexPage.rootkind (summary.py:318): sorted(set(kinds of the roots), key=name); MODULE = 1 < PACKAGE = 2
 RootKinds == SortSeq(SetToSeq({IF RootRec(r).pkg THEN 2 ELSE 1 : r \in Rng(roots)}), Lt)
@@ -210,11 +249,11 @@ Written ==
   LET pages == {PageFile(mods[i]) : i \in DOMAIN mods}
       files == pages \cup Summary \cup (IF Single THEN {<<2, roots[1]>>} ELSE {<<0, 0>>})
   IN [f \in files |->
-        IF f[1] = 2 THEN [pn |-> <<>>, body |-> <<<<0, 0>>>>]                   \* symlink target
-        ELSE IF f = <<0, 5>> THEN [pn |-> projname, body |-> mods]             \* allobjects order
-        ELSE IF f = <<0, 0>> /\ ~Single THEN [pn |-> projname, body |-> <<RootKinds>>]
-        ELSE IF f \in pages THEN [pn |-> projname, body |-> SitesOf(ModuleOfPage(f))]
-        ELSE [pn |-> projname, body |-> <<>>]]
+        IF f[1] = 2 THEN [pn |-> <<>>, bt |-> <<>>, body |-> <<<<0, 0>>>>]     \* symlink target
+        ELSE IF f = <<0, 5>> THEN [pn |-> projname, bt |-> BuildTime, body |-> mods]             \* allobjects order
+        ELSE IF f = <<0, 0>> /\ ~Single THEN [pn |-> projname, bt |-> BuildTime, body |-> <<RootKinds>>]
+        ELSE IF f \in pages THEN [pn |-> projname, bt |-> BuildTime, body |-> <<<<IdBase>>>> \o SitesOf(ModuleOfPage(f))]
+        ELSE [pn |-> projname, bt |-> BuildTime, body |-> <<>>]]      \* every page has the footer (footer.html:7)
 \* files are opened 'wb', the symlink is unlinked and re-created: new content wins, old files stay
 Overlay(old, new) ==
   [f \in (DOMAIN old) \cup (DOMAIN new) |-> IF f \in DOMAIN new THEN new[f] ELSE old[f]]
@@ -226,7 +265,7 @@ Write ==
      THEN /\ phase' = "cur" /\ pc' = "add" /\ nroot' = 0 /\ mods' = <<>> /\ listing' = <<>>
           /\ setOrder' = <<>> /\ siteOrder' = <<>> /\ projname' = <<>>
      ELSE /\ pc' = "done" /\ UNCHANGED <<phase, nroot, mods, listing, setOrder, siteOrder, projname>>
-  /\ UNCHANGED <<pid, u, roots, named, stack, outdir>>
+  /\ UNCHANGED <<pid, u, roots, named, var, clock, stack, outdir>>
 
 Next == AddRoot \/ StepEntry \/ PopFrame \/ AllAdded \/ GuessName \/ Write
 Spec == Init /\ [][Next]_vars
@@ -242,7 +281,8 @@ Post == PrintT(ToJson([dependent |-> SetToSeq(Dependent), projects |-> NProjects
 
 FileList(f) == SetToSeq(DOMAIN f)
 Emit == Done =>
-  PrintT(ToJson([pid |-> pid, reg |-> Reg, roots |-> roots, named |-> named, outdir |-> outdir,
+  PrintT(ToJson([pid |-> pid, reg |-> Reg, roots |-> roots, named |-> named, var |-> var, outdir |-> outdir,
+                 buildtime |-> BuildTime, idbase |-> IdBase,
                  setOrder |-> setOrder, listing |-> listing,
                  projname |-> projname, mods |-> mods, files |-> FileList(out),
                  alldocs |-> IF <<0, 5>> \in DOMAIN out THEN out[<<0, 5>>].body ELSE <<>>,
